@@ -71,6 +71,9 @@ def run_cg(graph, atoms):
         return {"k": "exc", "exc": "Unserialisable" + exc_class(exc), "msg": str(exc)[:160]}
 
 
+HISTORY = True
+
+
 def call(mode, graph, ev):
     from y0.algorithm.identify import id_star, idc_star
 
@@ -120,6 +123,8 @@ def main():
     from y0.algorithm.identify import id_star, idc_star
 
     mode, src, dst = sys.argv[1:4]
+    global HISTORY
+    HISTORY = "nohist" not in sys.argv[4:]
     groups = []
     for item in json.load(open(src)):
         g = item["g"]
@@ -135,7 +140,7 @@ def main():
                 recs.append({"id": rid, "k": "cstar", "ev": ev[0], "cond": ev[1], "out": out})
             else:
                 recs.append({"id": rid, "k": "cg", "ev": ev, "out": run_cg(graph, ev)})
-        hist = history_pass(mode, item, recs)
+        hist = history_pass(mode, item, recs) if HISTORY else {"events": 0, "mismatch": []}
         groups.append({"n": g["n"], "d": g["d"], "b": g["b"], "recs": recs, "gid": item["gid"], "hist": hist})
     json.dump(groups, open(dst, "w"))
 
